@@ -114,6 +114,42 @@ GARBAGE = [
 ]
 
 
+def header_payload(rng: random.Random) -> Tuple[str, str, Any]:
+    """two-line `header\npayload` snapshot files whose HEADER is intact and carries a version (`etag_to`, and
+    `delta_of` for deltas) while the file as a whole cannot be loaded: an orphaned delta (neither baseline nor
+    sibling full present), a payload that is valid JSON but not an object, a truncated payload.  A loader that
+    fails on such a file must leave the state exactly as an empty snapshot directory does."""
+    etag = rng.choice(["41", "17", 18, "abc", "7"])
+    kind = rng.choice(["delta_orphan", "delta_orphan", "payload_list", "payload_string", "payload_number",
+                       "payload_bool", "payload_truncated", "payload_empty_list", "payload_null", "delta_payload_list"])
+    hdr: Dict[str, Any] = {"mode": "full", "etag_to": etag, "codec": "none", "schema": "snapshot:v1"}
+    body = json.dumps({"version_etag": None, "store": {"weights": [{"target_kind": "node", "target_id": "n:x",
+                                                                   "attr": "weight", "value": 0.9}]},
+                       "gel": {"nodes": {}, "edges": {"a→b": {"src": "a", "dst": "b", "weight": 0.5}}}})
+    if kind.startswith("delta"):
+        hdr.update({"mode": "delta", "delta_of": rng.choice(["zzz", "40", "0"]), "etag_from": "40"})
+        if kind == "delta_orphan":
+            body = json.dumps(rng.choice([{"_del": ["x"], "_set": {"version_etag": "99"}}, {"store": {"weights": []}}, {}]))
+        else:
+            body = "[1, 2]"
+    elif kind == "payload_list":
+        body = rng.choice(["[1, 2, 3]", '[{"version_etag": "5"}]', '["x"]'])
+    elif kind == "payload_string":
+        body = rng.choice(['"snapshot"', '"{}"'])
+    elif kind == "payload_number":
+        body = rng.choice(["5", "-1", "3.5", "1e400"])
+    elif kind == "payload_bool":
+        body = "true"
+    elif kind == "payload_truncated":
+        body = body[: rng.randrange(1, len(body) - 1)]
+    elif kind == "payload_empty_list":
+        body = rng.choice(["[]", '""', "0", "false"])     # falsy payloads: the loader treats them as {}
+    elif kind == "payload_null":
+        body = "null"
+    name = rng.choice(["snap_000041.json", "state_a1.json", f"snapshot-{etag}.delta.json", "zz_latest.json"])
+    return "hp:" + kind, name, json.dumps(hdr) + "\n" + body
+
+
 VALID_SNAPSHOT = {
     "turn": 1, "agent": "a1", "version_etag": "3", "applied": 1, "deltas": [], "schema_version": "v1",
     "store": {"weights": [{"target_kind": "node", "target_id": "n:x", "attr": "weight", "value": 0.2}]},
@@ -187,12 +223,15 @@ class RealFaults(Component):
             texts.append(rng.choice(["hello world", "reply river"]))
         case: Dict[str, Any] = {"kind": kind, "spec": spec, "texts": texts, "faults": []}
         if kind == "garbage":
-            if (i // 5) % 2 == 0:
-                tag, mk = GARBAGE[(i // 10) % len(GARBAGE)]
+            stream = (i // 5) % 3
+            if stream == 0:
+                tag, mk = GARBAGE[(i // 15) % len(GARBAGE)]
                 name, content = mk(rng)
-            else:
+            elif stream == 1:
                 tag, content = mutate_snapshot(rng)
                 name = rng.choice(["state_a1.json", "snap_000007.json", "other.json"])
+            else:
+                tag, name, content = header_payload(rng)
             case["garbage"] = tag
             case["files"] = {name: content}
             if rng.random() < 0.3:
@@ -259,10 +298,14 @@ class RealFaults(Component):
                 for k in ignore:
                     rec.pop(k, None)
             return c
+        def pstate(r: TR.Run) -> dict:
+            # post-turn state the property's "equal to the off/idle run" is also checked on
+            return {k: r.state.get(k) for k in ("version_etag", "store_w", "gel")}
         fr = self._run(case, faults, None, {}, case.get("files"))
         out: Dict[str, Any] = {
             "raised": [r.raised for r in fr], "hits": [r.fault_hits for r in fr],
             "canon": [canon(r) for r in fr],
+            "state": [pstate(r) for r in fr],
             "boot": [dict(i) for r in fr for (s, i) in r.calls if s == "boot_load"],
         }
         loaded = any(b.get("loaded") for b in out["boot"])
@@ -272,6 +315,9 @@ class RealFaults(Component):
         else:
             br = self._run(case, [], cfg_off, idle, None)
             out["baseline"] = [canon(r) for r in br]
+            out["baseline_state"] = [pstate(r) for r in br]
+            if any((REAL_SITES.get(f["site"]) or {}).get("patch") for f in faults):
+                out["baseline_state"] = None      # a store refusing every call legitimately leaves other weights
             for f in faults:
                 if (REAL_SITES.get(f["site"]) or {}).get("patch") == "apply_zero" and f["turn"] < len(out["baseline"]):
                     for rec in out["baseline"][f["turn"]]["logs"].get("apply", []):
@@ -303,6 +349,13 @@ class RealFaults(Component):
                 cls += ":mmr_failure_drops_fusion_metrics"
             res.append((cls, d is None,
                         f"T1/T2/T4/apply/turn records or result differ from the off/idle baseline: {d}; faults {case['faults']} garbage={case.get('garbage')}"))
+            if io.get("baseline_state") is not None:
+                a, b = _canon(io["state"]), _canon(io["baseline_state"])
+                ds = None if a == b else first_diff(a, b)
+                res.append(("state_equal_off_or_idle", ds is None,
+                            f"post-turn state (version_etag / store weights / GEL edges) differs from the off/idle baseline "
+                            f"(for a snapshot file the loader did not load: the empty-snapshot-dir run): {ds}; "
+                            f"faults {case['faults']} garbage={case.get('garbage')} files={list((case.get('files') or {}).keys())}"))
         return res
 
     def tags(self, case, io):
